@@ -63,10 +63,51 @@ func makeSlab(spec string) *util.Slab {
 			chars := util.RunesToChars(t)
 			algo.FuzzyMatchV2(false, false, r.Intn(2) == 0, &chars, []rune(strings.ToLower(string(p))), r.Intn(2) == 0, slab)
 		}
+	case 'g':
+		// preceding call on a long line that V2 still takes (N*M <= slab) but whose matrices do
+		// not fit into the slab: the calls after it must see the same slab capacity as before
+		m := 6 + atoi(spec[1:])%5
+		n := c["slab16Size"]/m - 3
+		t := make([]rune, n)
+		for i := range t {
+			t[i] = 'x'
+		}
+		pat := []rune("abcdefghij")[:m]
+		copy(t, pat[:m-1])
+		t[n-1] = pat[m-1]
+		chars := util.RunesToChars(t)
+		algo.FuzzyMatchV2(false, false, true, &chars, pat, false, slab)
 	default:
 		panic("bad slab " + spec)
 	}
 	return slab
+}
+
+// emitSlabHistory: lines just too long for V2 on a full-size slab (so V1 scores them), whose
+// leftmost embedding is scattered and a later one contiguous (V1 and V2 disagree), evaluated
+// after a call that needed more scratch memory than the slab holds.
+func emitSlabHistory(r *rand.Rand, emit func(op string, args ...string)) {
+	c := fzf.VerifConstants()
+	for k := 0; k < 4; k++ {
+		m := 6 + r.Intn(5)
+		n := c["slab16Size"]/m + 1 + r.Intn(600)
+		pat := []rune("abcdefghij")[:m]
+		t := make([]rune, n)
+		for i := range t {
+			t[i] = rune("xyz-_ /.0"[r.Intn(9)])
+		}
+		at := r.Intn(50)
+		for i, ch := range pat { // scattered
+			t[at+3*i] = ch
+		}
+		at2 := 200 + r.Intn(n-300)
+		copy(t[at2:], pat) // contiguous
+		repr := "r"
+		if r.Intn(2) == 0 {
+			repr = "b"
+		}
+		emit("v2", "default", itoa(r.Intn(2)), "0", "1", itoa(r.Intn(2)), fmt.Sprintf("g%d", r.Intn(1000)), repr, encRunes(t), encRunes(pat))
+	}
 }
 
 // pureVariants lists the (withPos, repr, slab) combinations of one `pure` case, in a fixed order.
@@ -212,6 +253,9 @@ func algoGen(r *rand.Rand, count int, emit func(op string, args ...string)) {
 	fns := []string{"v2", "v2", "v2", "v1", "exact", "boundary", "prefix", "suffix", "equal"}
 	schemes := []string{"default", "default", "path", "history"}
 	c := fzf.VerifConstants()
+	if count >= 1000 {
+		emitSlabHistory(r, emit)
+	}
 	for i := 0; i < count; i++ {
 		fn := fns[r.Intn(len(fns))]
 		n := r.Intn(24)
